@@ -376,6 +376,34 @@ def r21_opcode_cast(sig, body):
     return sig, body, n
 
 
+def r22_write_macro(sig, body):
+    """R22: `write!(BUF, "fmt", args…)` with its trailing `.unwrap()` / `.expect("…")` -> `verif_write(&mut BUF)`
+    (text formatting into a String buffer is outside Verus; the arguments are dropped, the buffer is havocked)"""
+    n = 0
+    pos = 0
+    while True:
+        m = re.search(r'\bwrite!\s*\(', body[pos:])
+        if not m:
+            break
+        op = pos + m.end() - 1
+        cl = _match_paren(body, op)
+        args = _split_top(body[op + 1:cl])
+        buf = args[0].strip()
+        end = cl + 1
+        m2 = re.match(r'\s*\.\s*(unwrap\s*\(\s*\)|expect\s*\()', body[end:])
+        if m2:
+            if m2.group(1).startswith('expect'):
+                ep = end + m2.end() - 1
+                end = _match_paren(body, ep) + 1
+            else:
+                end = end + m2.end()
+        new = 'verif_write(&mut %s)' % buf
+        body = body[:pos + m.start()] + new + body[end:]
+        pos = pos + m.start() + len(new)
+        n += 1
+    return sig, body, n
+
+
 RULES = {
     'R1': r1_error_macro,
     'R3': r3_continue_guard,
@@ -395,6 +423,7 @@ RULES = {
     'R19': r19_closure_contract,
     'R20': r20_ptr_offset,
     'R21': r21_opcode_cast,
+    'R22': r22_write_macro,
 }
 
 DESCRIPTIONS = {k: (v.__doc__ or '').strip() for k, v in RULES.items()}
